@@ -14,8 +14,15 @@ def callgraph(prog):
 
 
 def body_by_name(prog, name):
-    """Bodies (fn / assoc fn) whose normalised pretty name equals `name`."""
-    return [b for b in prog.bodies.values() if b.kind in ("Fn", "AssocFn") and norm(b.name) == name]
+    """Bodies (fn / assoc fn) whose normalised pretty name equals `name`; if the item was moved to
+    another module of the same crate, the unique item with the same module-independent name."""
+    from .callgraph import short
+    exact = [b for b in prog.bodies.values() if b.kind in ("Fn", "AssocFn") and norm(b.name) == name]
+    if exact:
+        return exact
+    crate = name.split("::", 1)[0].lstrip("<")
+    sn = short(name)
+    return [b for b in prog.bodies.values() if b.kind in ("Fn", "AssocFn") and b.crate == crate and short(norm(b.name)) == sn]
 
 
 def one_body(rep, prog, name, rule):
